@@ -62,7 +62,6 @@ def _submat_files():
     return sorted(f.name for f in files('sugar.data.data_submat').iterdir()
                   if not f.name.startswith('README'))
 
-@lru_cache
 def submat(fname):
     """
     Return substitution matrix as a dict of dicts
